@@ -38,6 +38,13 @@ type Case struct {
 	Conf  int64   `json:"conf"`
 	Start *int64  `json:"start,omitempty"` // Hist: nil = nil start block
 	Heads []int64 `json:"heads,omitempty"`
+	Ops   []SeqOp `json:"ops,omitempty"` // Seq: guard evaluations on long-lived, conf-sharing objects
+}
+
+type SeqOp struct {
+	Path string `json:"path"`
+	Head int64  `json:"head"`
+	Blk  int64  `json:"blk"`
 }
 
 type Handled struct {
@@ -47,6 +54,7 @@ type Handled struct {
 type Obs struct {
 	Handled bool      `json:"handled"`
 	Hist    []Handled `json:"hist,omitempty"`
+	Seq     []bool    `json:"seq,omitempty"`
 }
 
 // ---- fakes -----------------------------------------------------------------------------------
@@ -159,8 +167,7 @@ func (s *subConn) FetchEvents(a, b *big.Int) ([]*parser.Event, error) {
 // ---- driving the real code ---------------------------------------------------------------------
 
 func scan(start *int64, conf int64, heads []int64) []Handled {
-	ctx, cancel := context.WithCancel(context.Background())
-	conn := &btcConn{heads: heads, cancel: cancel}
+	conn := &btcConn{}
 	h := &btcHandler{conn: conn}
 	id := uint8(1)
 	cfg := &btcconfig.BtcConfig{
@@ -169,6 +176,14 @@ func scan(start *int64, conf int64, heads []int64) []Handled {
 		BlockConfirmations: big.NewInt(conf),
 	}
 	l := btclistener.NewBtcListener(conn, []btclistener.EventHandler{h}, cfg, nopStore{})
+	return scanWith(l, conn, h, start, heads)
+}
+
+// scanWith runs the (possibly long-lived) listener over one script of heads.
+func scanWith(l *btclistener.BtcListener, conn *btcConn, h *btcHandler, start *int64, heads []int64) []Handled {
+	ctx, cancel := context.WithCancel(context.Background())
+	conn.heads, conn.next, conn.poll, conn.cancel = heads, 0, 0, cancel
+	h.got = nil
 	var sb *big.Int
 	if start != nil {
 		sb = big.NewInt(*start)
@@ -198,6 +213,8 @@ func run(c Case) Obs {
 	case "Hist":
 		got := scan(c.Start, c.Conf, c.Heads)
 		return Obs{Handled: len(got) > 0, Hist: got}
+	case "Seq":
+		return Obs{Seq: runSeq(c)}
 	case "EvmRetryTx":
 		l := evmevents.NewListener(&evmClient{latest: c.Head, rblk: c.Blk})
 		_, err := l.FetchRetryDepositEvents(evmevents.RetryV1Event{TxHash: "0x01"}, common.Address{}, big.NewInt(c.Conf))
@@ -225,6 +242,76 @@ func run(c Case) Obs {
 		return Obs{Handled: conn.hashAsked}
 	}
 	panic("unknown path " + c.Path)
+}
+
+// runSeq evaluates the guards on ONE set of long-lived objects wired as app.go wires them: the BTC
+// listener and the BTC retry handler share config.BlockConfirmations, the EVM retry paths share the
+// EVM config's BlockConfirmations.
+func runSeq(c Case) []bool {
+	ch := make(chan []*message.Message, 4*len(c.Ops)+4)
+	id := uint8(1)
+	btcCfg := &btcconfig.BtcConfig{
+		GeneralChainConfig: chain.GeneralChainConfig{Id: &id},
+		BlockRetryInterval: 0,
+		BlockConfirmations: big.NewInt(c.Conf),
+	}
+	bconn := &btcConn{}
+	bh := &btcHandler{conn: bconn}
+	bl := btclistener.NewBtcListener(bconn, []btclistener.EventHandler{bh}, btcCfg, nopStore{})
+	bdp := &btcDepProc{}
+	rconn := &btcConn{}
+	brh := btcexec.NewRetryMessageHandler(bdp, rconn, btcCfg.BlockConfirmations, propStore{}, ch)
+
+	evmConf := big.NewInt(c.Conf)
+	ecl := &evmClient{}
+	el := evmevents.NewListener(ecl)
+	edp := &depProc{}
+	erh := evmexec.NewRetryMessageHandler(edp, ecl, propStore{}, evmConf, ch)
+
+	sf := &subFetcher{}
+	sdp := &depProc{}
+	srh := subexec.NewRetryMessageHandler(sdp, sf, propStore{}, ch)
+	sconn := &subConn{}
+	seh := sublistener.NewRetryEventHandler(zerolog.Nop().With(), sconn, nil, 1, ch)
+
+	var out []bool
+	for _, op := range c.Ops {
+		msg := &message.Message{Source: 1, Destination: 2, Data: retry.RetryMessageData{
+			SourceDomainID: 1, DestinationDomainID: 2, BlockHeight: big.NewInt(op.Blk), ResourceID: [32]byte{1}}}
+		switch op.Path {
+		case "BtcScan":
+			st := op.Blk
+			got := scanWith(bl, bconn, bh, &st, []int64{op.Head})
+			out = append(out, len(got) == 1 && got[0].Block == op.Blk)
+		case "BtcRetryMsg":
+			bdp.called = false
+			rconn.heads, rconn.next = []int64{op.Head}, 0
+			_, _ = brh.HandleMessage(msg)
+			out = append(out, bdp.called)
+		case "EvmRetryTx":
+			ecl.latest, ecl.rblk = op.Head, op.Blk
+			_, err := el.FetchRetryDepositEvents(evmevents.RetryV1Event{TxHash: "0x01"}, common.Address{}, evmConf)
+			out = append(out, err == nil)
+		case "EvmRetryMsg":
+			edp.called = false
+			ecl.latest = op.Head
+			_, _ = erh.HandleMessage(msg)
+			out = append(out, edp.called)
+		case "SubRetryMsg":
+			sdp.called = false
+			sf.fin = uint32(op.Head)
+			_, _ = srh.HandleMessage(msg)
+			out = append(out, sdp.called)
+		case "SubRetryEvt":
+			sconn.hashAsked = false
+			sconn.fin, sconn.blk = uint32(op.Head), op.Blk
+			_ = seh.HandleEvents(big.NewInt(0), big.NewInt(1))
+			out = append(out, sconn.hashAsked)
+		default:
+			panic("unknown path " + op.Path)
+		}
+	}
+	return out
 }
 
 // ---- generation ----------------------------------------------------------------------------------
@@ -303,6 +390,28 @@ func gen(r *vgen.Rng, tier string) []Case {
 		}
 		out = append(out, c)
 	}
+	nseq := 120
+	if tier == "thorough" {
+		nseq = 2000
+	}
+	for i := 0; i < nseq; i++ {
+		conf := int64(r.Intn(12))
+		n := r.Range(2, 8)
+		ops := make([]SeqOp, n)
+		for j := range ops {
+			p := vgen.Pick(r, singlePaths)
+			blk := int64(r.Intn(5000))
+			head := blk + conf + int64(r.Range(-3, 3))
+			if p == "SubRetryMsg" || p == "SubRetryEvt" {
+				head = blk + int64(r.Range(-2, 2))
+			}
+			if head < 0 {
+				head = 0
+			}
+			ops[j] = SeqOp{Path: p, Head: head, Blk: blk}
+		}
+		out = append(out, Case{Path: "Seq", Conf: conf, Ops: ops})
+	}
 	return out
 }
 
@@ -316,6 +425,11 @@ func coq(c Case, o Obs) string {
 		}
 		return "Hist " + st + " " + vgen.Z(c.Conf) + " " + vgen.ListOf(c.Heads, vgen.Z) + " " +
 			vgen.ListOf(o.Hist, func(h Handled) string { return vgen.Pair(vgen.N(uint64(h.Poll)), vgen.Z(h.Block)) })
+	}
+	if c.Path == "Seq" {
+		return "Seq " + vgen.Z(c.Conf) + " " + vgen.ListOf(c.Ops, func(o SeqOp) string {
+			return "(" + o.Path + ", " + vgen.Z(o.Head) + ", " + vgen.Z(o.Blk) + ")"
+		}) + " " + vgen.ListOf(o.Seq, vgen.Bool)
 	}
 	return "Single " + coqPath(c.Path) + " " + vgen.Z(c.Head) + " " + vgen.Z(c.Blk) + " " + vgen.Z(c.Conf) + " " + vgen.Bool(o.Handled)
 }
@@ -333,9 +447,12 @@ func main() {
 			if c.Path == "Hist" {
 				return o.Handled
 			}
+			if c.Path == "Seq" {
+				return len(c.Ops) >= 2
+			}
 			d := c.Head - c.Blk - c.Conf
 			return d >= -3 && d <= 3
 		},
-		Rule: "boundary grid (head-blk-conf in -3..3) x conf x base height for each of the 6 guards, plus random triples, plus random head histories for the real BTC scan loop; distinct = distinct input JSON; non-trivial = within 3 blocks of the acceptance boundary, or a history in which at least one block is handled",
+		Rule: "boundary grid (head-blk-conf in -3..3) x conf x base height for each of the 6 guards, plus random triples, plus random head histories for the real BTC scan loop, plus random sequences of guard evaluations on long-lived handler objects that share the configured confirmation depth as app.go wires them; distinct = distinct input JSON; non-trivial = within 3 blocks of the acceptance boundary, or a history in which at least one block is handled",
 	})
 }
